@@ -355,6 +355,24 @@ pub fn related_unions() -> Vec<Ty> {
             }
         }
     }
+    // a second family: struct types related by WIDTH (more fields = subtype), incomparable pairs
+    // with a common subtype among them
+    let st = |fields: &[&str]| Ty::Struct(fields.iter().map(|f| (f.to_string(), i.clone())).collect());
+    let sfam: Vec<Ty> = vec![st(&[]), st(&["a"]), st(&["b"]), st(&["a", "b"]), st(&["a", "b", "c"])];
+    for w in &wrappers {
+        for a in 0..sfam.len() {
+            for b in a + 1..sfam.len() {
+                for c in b + 1..sfam.len() {
+                    if let Some(t) = Ty::union_of(vec![w(&sfam[a]), w(&sfam[b]), w(&sfam[c])]) {
+                        out.insert(t);
+                    }
+                }
+                if let Some(t) = Ty::union_of(vec![w(&sfam[a]), w(&sfam[b])]) {
+                    out.insert(t);
+                }
+            }
+        }
+    }
     out.into_iter().collect()
 }
 
